@@ -14,10 +14,11 @@ PROP = {
                   "holds exactly the commands whose PLog write took effect, once each, in order, with the rows, IDs and offset "
                   "of their replies (success => in all stores, 4xx or PLog write without effect => in none, later failure => "
                   "completed by recovery); log entries never change once written; a clean insert after any history succeeds; "
-                  "a command is in the log exactly when its PLog write took effect; exactly one reply per command; two recorded "
-                  "deviations each with a refutation witness and the partial theorem beside it (C01-F2: a PLog write failing "
-                  "after its effect is answered 5xx and applied; C01-F3: a re-applied deactivation does not reach sync "
-                  "projectors subscribed AFTER DEACTIVATE only - the consistency theorems cover every other projector); "
+                  "a command is in the log exactly when its PLog write took effect; exactly one reply per command; one recorded "
+                  "deviation with its refutation witness and the partial theorem beside it (C01-F2: a PLog write failing "
+                  "after its effect is answered 5xx and applied); three shape flags read from the Go source, each with a "
+                  "reflexivity side condition and a refutation witness for the flag-false variant (putPLog returns the "
+                  "error: F11; the sync flush loop stops at the first error; decoded events keep IsDeactivated: C01-F3 - all repaired); "
                   "the theorems are stated for the code as it is through reflexivity side "
                   "conditions on two shape flags the translator reads from the Go source (putPLog returns the error - "
                   "F11, repaired; the sync actualizer's flush loop stops at the first error), each with a refutation "
